@@ -318,4 +318,24 @@ def recheck(case, tier):
 
 def snippet(d):
     c = d["case"]
-    return ("import hy\n# " + str(d["detail"]).replace("\n", " ")[:600] + "\n")
+    tier = "thorough" if c["level"] == "d3" else "quick"
+    v = tuple(c["variant"])
+    if c["level"] == "core":
+        # the core set depends on the tier; find the pattern by its text
+        cands = [q for t in ("quick", "thorough") for q in _core(t) if P.hy(q) == c["pattern"]]
+        p = cands[0]
+    else:
+        p = [get for nm, n, get in _space(tier) if nm == c["level"]][0](c["index"])
+    subj = P.SUBJECTS[c.get("subject", 0) or 0]
+    return (
+        "import hy, hy.models, types\n"
+        "class Pt:\n    __match_args__ = ('x', 'y')\n    def __init__(s, x, y): s.x, s.y = x, y\n"
+        "    def __eq__(s, o): return isinstance(o, Pt) and (o.x, o.y) == (s.x, s.y)\n    def __repr__(s): return f'Pt({s.x!r}, {s.y!r})'\n"
+        "NS = types.SimpleNamespace(Pt=Pt); K = types.SimpleNamespace(one=2)\n"
+        "KWK, KWJ = hy.models.Keyword('k'), hy.models.Keyword('j'); KWV = types.SimpleNamespace(k=KWK, j=KWJ)\n"
+        f"PRE = {tuple(val for n, val in P.PRESET)!r}\n"
+        "def g(i, vals, gv): print('guard called with', vals); return gv\n"
+        f"HY = {P.hy_program(p, v, fname='m_hy')!r}\nPY = {P.py_program(p, v, fname='m_py')!r}\n"
+        "def show(f):\n    try: print({k: w for k, w in f().items() if k in %r})\n    except Exception as e: print(type(e).__name__, e)\n" % (P.DUMP,) +
+        "show(lambda: (hy.eval(hy.read_many(HY), globals()), m_hy(%s, %r))[1])\n" % (subj, c.get("gv", True)) +
+        "show(lambda: (exec(PY, globals()), m_py(%s, %r))[1])\n" % (subj, c.get("gv", True)))
